@@ -344,9 +344,28 @@ def solver_object_design(ck):
             ck.cov["notes"].append(f"{neg} no longer violates {inv}: the negative model lost its teeth")
 
 
+APALACHE_STEPS = (("Init", "IndInv", 0, "NoError"), ("IndInit", "IndInv", 1, "NoError"),
+                  ("IndInit", "FreshStep", 1, "NoError"), ("IndInit", "Safe", 0, "NoError"),
+                  ("IndInit", "NoDeepState", 0, "Error"))
+
+
+def solver_object_inductive(ck):
+    """Unbounded safety of SolverObject for the code's constants: an inductive invariant discharged by Apalache
+    (base, step, the action invariant FreshStep, IndInv => properties) + a non-vacuity control that must be refuted."""
+    for init, inv, length, want in APALACHE_STEPS:
+        r = tlc.apalache("MC_SolverObject", init, inv, length)
+        ck.cov["design_models"].append(dict(model=f"MC_SolverObject apalache --init={init} --inv={inv} --length={length}",
+                                            kind="inductive invariant (Apalache 0.58)", outcome=r["outcome"],
+                                            expected=want, wall_s=r["wall_s"]))
+        if r["outcome"] != want:
+            ck.machinery(f"Apalache: MC_SolverObject --init={init} --inv={inv} --length={length} gave {r['outcome']}, expected {want}")
+
+
 def solve_purity_binding(ck, tier, seed):
     try:
         solver_object_design(ck)
+        if tier == "thorough":
+            solver_object_inductive(ck)
     except tlc.TLCError as e:
         ck.machinery(str(e)[:2000])
         return
